@@ -21,7 +21,7 @@ LEVEL_NOTE = "The model follows the latest registration under a tool name; requi
 PROPERTY = "C03"
 BUDGET = {"quick": 6000, "thorough": 150000}
 RULE = ("Generated: allowed-capability set in {None} + subsets of the 6 capabilities (incl. empty), constructor tools, and histories of up to 12 register/re-register/call steps over "
-        "3 tool names, 3 registration paths and 10 entry points. Enumerated: one tool, allowed set x required set over a 12x12 lattice of subsets x 10 entry points (1440 cases). "
+        "3 tool names, 3 registration paths and 10 entry points. Enumerated: one tool, allowed set x required set over a 16x16 lattice of subsets (incl. non-enum string tags and sets larger than the enum) x 10 entry points (2560 cases). "
         "Non-trivial: a step requested a disallowed tool through a path that resolved the tool name.")
 ASSUMPTIONS = [
     "a tool's requirement is `required_capabilities`, falling back to `capabilities` (both spellings are honoured by the engine)",
@@ -30,15 +30,23 @@ ASSUMPTIONS = [
 MIN_NONTRIVIAL_FRACTION = 0.2
 RULE += " Added after the seeded rounds: " + 'Tools are also requested as an argument of another tool, inside arithmetic and inside a comparison, and under other spellings of their name (upper-case, title-case, padded). Bodies are counted per registration (a body whose own registration is outside the allowed set must never run, whatever the name resolves to), and 1/8 of the generated cases plus an enumerated table are two-thread races: one thread requests t0 through metabolize / execute_tool_call / the Nucleus tool loop while a second re-registers t0 with other requirements, under every single-preemption schedule (line granularity of mitochondria.py and nucleus.py) and under generated schedules.'
 RULE += ' In the LLM tool loop one provider turn requests the tool under test twice plus every other registered tool, with call ids that are distinct, all equal, empty, or equal with the order reversed (a verdict about one call must never cover another); enumerated for two tools x both registration orders x 4 id modes.'
-EXHAUSTIVE_NOTE = {"quick": "12 allowed sets (incl. None, empty, full) x 12 required sets x 10 entry points = 1440 single-tool cases, complete for that lattice; re-registration race: 3 configurations x 4 entry points x every single preemption point up to step 90",
+RULE += " Capability sets include non-enum string tags ('gpu', 'custom:db', which the engine supports) and sets larger than the enum (up to 8 entries)."
+EXHAUSTIVE_NOTE = {"quick": "16 allowed sets (incl. None, empty, full, sets with non-enum tags and sets larger than the enum) x 16 required sets x 10 entry points = 2560 single-tool cases, complete for that lattice; re-registration race: 3 configurations x 4 entry points x every single preemption point up to step 90",
                    "thorough": "same lattice, complete; race table up to step 160"}
 
 CAPS = ["READ_FS", "WRITE_FS", "NET", "EXEC_CODE", "MONEY", "EMAIL_SEND"]
+# capability tags outside the enum are supported by the engine (it renders them with str()): they are capabilities like any other
+TAGS = ["gpu", "custom:db"]
+
+
+def _cap(Capability, c):
+    return getattr(Capability, c) if c in CAPS else c
 ENTRIES = ["auto", "forced-tool", "forced-math", "forced-logic", "forced-transform", "execute_tool_call", "nucleus", "nested-arg", "in-arithmetic", "in-comparison"]
 HOWS = ["engulf", "register_function", "custom-capabilities-attr"]
 TOOLS = ["t0", "t1", "t2"]
 
-_caps = st.lists(st.sampled_from(CAPS), max_size=3, unique=True)
+_caps = st.one_of(st.lists(st.sampled_from(CAPS), max_size=3, unique=True), st.lists(st.sampled_from(CAPS), max_size=3, unique=True),
+                 st.lists(st.sampled_from(CAPS + TAGS), max_size=8, unique=True))
 _step = st.one_of(
     st.tuples(st.just("reg"), st.sampled_from(HOWS), st.sampled_from(TOOLS), _caps),
     st.tuples(st.just("call"), st.sampled_from(ENTRIES), st.sampled_from(TOOLS + ["t0", "unknown"])),
@@ -68,7 +76,8 @@ def strategy(tier):
 
 
 _LATTICE = [None, [], ["NET"], ["READ_FS"], ["NET", "READ_FS"], ["WRITE_FS"], ["MONEY", "EMAIL_SEND"], ["EXEC_CODE"],
-            ["NET", "MONEY"], ["READ_FS", "WRITE_FS", "NET"], ["READ_FS", "WRITE_FS", "NET", "EXEC_CODE", "MONEY"], list(CAPS)]
+            ["NET", "MONEY"], ["READ_FS", "WRITE_FS", "NET"], ["READ_FS", "WRITE_FS", "NET", "EXEC_CODE", "MONEY"], list(CAPS),
+            ["gpu"], ["READ_FS", "WRITE_FS", "NET", "EXEC_CODE", "MONEY", "gpu"], list(CAPS) + ["gpu"], list(CAPS) + TAGS]
 
 
 def enumerate_cases(tier):
@@ -113,7 +122,7 @@ def judge(case):
     from operon_ai.organelles.nucleus import Nucleus
     from operon_ai.providers.base import LLMResponse, ToolCall
     out = Outcome()
-    allowed = None if case["allowed"] is None else {getattr(Capability, c) for c in case["allowed"]}
+    allowed = None if case["allowed"] is None else {_cap(Capability, c) for c in case["allowed"]}
     counters = {}
     regs = []              # one record per registration, in order: [name, set of cap names, number of times its body ran]
     required = {}          # tool name -> set of cap names of the *latest* registration
@@ -134,7 +143,7 @@ def judge(case):
         return body
 
     def register(m, how, name, caps):
-        capset = {getattr(Capability, c) for c in caps}
+        capset = {_cap(Capability, c) for c in caps}
         body = mk_body(name, caps)
         counters.setdefault(name, 0)
         required[name] = set(caps)
@@ -149,7 +158,7 @@ def judge(case):
 
     init_tools = []
     for name, caps in case["init"]:
-        capset = {getattr(Capability, c) for c in caps}
+        capset = {_cap(Capability, c) for c in caps}
         body = mk_body(name, caps)
         counters.setdefault(name, 0)
         required[name] = set(caps)
